@@ -489,7 +489,12 @@ func (x *Exec) step(st *State, fr *Frame, instr ssa.Instruction) {
 	case *ssa.UnOp:
 		fr.vals[in] = x.unop(st, fr, in)
 	case *ssa.BinOp:
-		fr.vals[in] = x.binop(st, fr, in)
+		v := x.binop(st, fr, in)
+		if tv, ok := v.(TV); ok && tv.S == SInt && len(tv.E) > 400 {
+			// name big arithmetic results: nested wrap-around terms otherwise double with every operation
+			v = TV{SInt, st.nameTerm(SInt, tv.E)}
+		}
+		fr.vals[in] = v
 	case *ssa.FieldAddr:
 		p, ok := x.get(st, fr, in.X).(PtrV)
 		if !ok {
